@@ -293,7 +293,7 @@ def pki(node_id, curve_name='p256', which=0, identity='own'):
     return _PKI[key]
 
 
-def generate_pki(node_id, curve_name='p256', which=0):
+def generate_pki(node_id, curve_name='p256', which=0, short_coordinate=False):
     ''' How fixtures/pki.json is made (tools/mkpki.py): one CA and three end-entity certificates. '''
     import datetime
     from cryptography import x509
@@ -313,6 +313,12 @@ def generate_pki(node_id, curve_name='p256', which=0):
     out = {'node_id': node_id, 'ca': ca.public_bytes(ser.Encoding.PEM).decode()}
     for serial, (sfx, eid) in enumerate((('', node_id), ('_noid', None), ('_other', 'dtn://other/'))):
         ee_key = ec.generate_private_key(curve)
+        while short_coordinate and sfx == '':
+            # a key whose public point has a coordinate with a leading zero octet (about one key in 128 has)
+            nums = ee_key.public_key().public_numbers()
+            if min(nums.x.bit_length(), nums.y.bit_length()) <= curve.key_size - 8:
+                break
+            ee_key = ec.generate_private_key(curve)
         builder = (x509.CertificateBuilder().subject_name(x509.Name([x509.NameAttribute(x509.oid.NameOID.COMMON_NAME, 'end-entity' + sfx)]))
                    .issuer_name(ca.issuer).public_key(ee_key.public_key()).serial_number(20 + 10 * which + serial)
                    .not_valid_before(nbefore).not_valid_after(nafter)
